@@ -28,6 +28,8 @@ ASSUMPTIONS = [
     "any exception at construction, assignment or evaluation counts as 'rejected'",
     "a bare boolean expression is not generated as the direct argument of sqrt/exp/sin/cos/tan/arctan (numpy evaluates "
     "ufuncs of bool in float16: a precision effect unrelated to grouping)",
+    "random trees do not apply an arithmetic operator to two bare boolean expressions (with numpy-typed operands, e.g. an array aggregate inside the "
+    "comparison, numpy's boolean algebra applies: + is or, * is and); boolean (op) number is generated",
 ]
 EXHAUSTIVE_SCOPE = "depth-2 table: every (outer op, operand position, inner op, leaf shape) combination listed in c02.table()"
 
@@ -415,10 +417,10 @@ def tree_strategy(max_depth):
         subb = st.deferred(lambda: boolean(d - 1))
         return st.one_of(
             num_leaf,
-            st.tuples(st.sampled_from(E.BINOPS), sub, sub).map(lambda x: ["bin", x[0], x[1], x[2]]),
-            st.tuples(st.sampled_from(["+", "-", "*", "/", "-", "-"]), sub, sub).map(lambda x: ["bin", x[0], x[1], x[2]]),
+            st.tuples(st.sampled_from(E.BINOPS), sub, sub).filter(_not_two_booleans).map(lambda x: ["bin", x[0], x[1], x[2]]),
+            st.tuples(st.sampled_from(["+", "-", "*", "/", "-", "-"]), sub, sub).filter(_not_two_booleans).map(lambda x: ["bin", x[0], x[1], x[2]]),
             sub.map(lambda x: ["neg", x]),
-            st.tuples(st.sampled_from(E.CALLS1), sub.filter(lambda x: not E.is_bool_tree(x))).map(lambda x: ["call", x[0], [x[1]]]),
+            st.tuples(st.sampled_from(E.CALLS1), sub.filter(lambda x: not _may_be_bool(x))).map(lambda x: ["call", x[0], [x[1]]]),
             st.tuples(st.sampled_from(["min", "max"]), sub, sub).map(lambda x: ["call", x[0], [x[1], x[2]]]),
             st.tuples(sub, st.sampled_from([0, 1, 2])).map(lambda x: ["call", "round", [x[0], ["num", x[1]]]]),
             st.tuples(subb, sub, sub).map(lambda x: ["if", x[0], x[1], x[2]]),
@@ -438,6 +440,23 @@ def tree_strategy(max_depth):
         )
 
     return num(max_depth)
+
+
+def _may_be_bool(t):
+    """the value of the tree can be a bare boolean: a comparison/And/Or/Not, or an If / min / max that hands one through"""
+    if E.is_bool_tree(t):
+        return True
+    if t[0] == "if":
+        return _may_be_bool(t[2]) or _may_be_bool(t[3])
+    if t[0] == "call" and t[1] in ("min", "max"):
+        return any(_may_be_bool(a) for a in t[2])
+    return False
+
+
+def _not_two_booleans(x):
+    """numpy's boolean algebra (+ is or, * is and, - is an error) applies when both operands of an arithmetic operator are bare
+    comparison results of numpy type: a typing effect, not a grouping one (see ASSUMPTIONS)"""
+    return not (_may_be_bool(x[1]) and _may_be_bool(x[2]))
 
 
 def case_strategy(max_depth):
